@@ -67,7 +67,23 @@ def check_queue(ctx, tu, info, q):
         ctx.ob('C11.O4', f, 'predicate false and notification enabled => queue empty and nothing in dispatch', ok,
                detail='predicate %s, counterexample %s' % (F.show(pred), cex))
 
-    # O2
+    check_guard_span(ctx, tu, info, q, 'C11.O2')
+
+    # O3 sole writer
+    for f in info.members(q):
+        for w in info.writes(f):
+            if last_field(w['path']) == 'queueEmptyCounter' and w['path'][-1] == '.queueEmptyCounter':
+                how = w['how']
+                if how.startswith('call:') and how[5:] in ('load',):
+                    continue
+                ctx.ob('C11.O3', f, 'queueEmptyCounter is changed only through CounterGuard', how == 'guard',
+                       detail='%s at %s' % (how, f.nloc(w['node'])), key_detail='writer ' + how)
+
+
+def check_guard_span(ctx, tu, info, q, rule, only_with_putback=False):
+    """O2 (also C07.W7): the in-dispatch guard spans from before the take to after the put-back. For C07 this is what makes the silent
+    put-back harmless: the wait predicate contains "!emptyQueue()", which the guard keeps true while events are away, so no waiter can
+    have gone to sleep on a queue that the put-back then refills without a notify."""
     for f in info.members(q):
         if is_lifetime(f) or f.kind == 'lambda':
             continue
@@ -87,6 +103,8 @@ def check_queue(ctx, tu, info, q):
                 putbacks.append(w)
         if not takes:
             continue
+        if only_with_putback and not [w for w in putbacks if any(f.pos_reaches(t['pos'], w['pos']) for t in takes)]:
+            continue    # nothing is put back without a notify: the guard span matters for emptiness reporting only
         inv = invoke_calls(info, f)
         inv_after = [n for n in inv if any(f.pos_reaches(t['pos'], f.pos(n)) for t in takes)]
         if not inv_after:
@@ -94,7 +112,7 @@ def check_queue(ctx, tu, info, q):
         si = info.scopes(f)
         guards = [(pos, p, var) for (pos, kind, p, var, n) in si.acquires if kind == 'guard' and last_field(p) == 'queueEmptyCounter']
         ok_enter = bool(guards) and all(any(f.pos_dominates(g[0], t['pos']) for g in guards) for t in takes)
-        ctx.ob('C11.O2', f, 'a CounterGuard on queueEmptyCounter is entered before events are taken out of queueList', ok_enter,
+        ctx.ob(rule, f, 'a CounterGuard on queueEmptyCounter is entered before events are taken out of queueList', ok_enter,
                detail='take at %s is not dominated by a guard: between the take and the dispatch the queue looks empty'
                       % ', '.join(f.nloc(t['node']) for t in takes),
                where=f.nloc(takes[0]['node']))
@@ -103,26 +121,30 @@ def check_queue(ctx, tu, info, q):
             held = si.held_must(f.pos(n), 'guard')
             if not any(last_field(p) == 'queueEmptyCounter' for p in held):
                 bad.append(f.nloc(n))
-        ctx.ob('C11.O2', f, 'the guard is held at every dispatch / predicate call that follows the take', not bad,
+        ctx.ob(rule, f, 'the guard is held at every dispatch / predicate call that follows the take', not bad,
                detail='user code runs without the guard at %s' % ', '.join(bad))
         badp = []
+        # a put-back may also sit in the destructor of a local helper object (scope-exit idiom): the object has to die before the guard does
+        for bid, blk in f.blocks.items():
+            for idx, e in enumerate(blk['elems']):
+                if e['k'] != 'autodtor' or 'c' not in e:
+                    continue
+                g = tu.by_id.get((tu.decls[e['c']] or {}).get('fid', -1)) if isinstance(e['c'], int) and e['c'] < len(tu.decls) else None
+                if g is None:
+                    continue
+                if any(wg['path'][-1:] == ('.queueList',) and wg['how'].startswith('call:') and wg['how'][5:].split('::')[-1] in ADD_METHODS
+                       for wg in info.writes(g)):
+                    held = si.held_must((bid, idx), 'guard')
+                    if not any(last_field(p) == 'queueEmptyCounter' for p in held):
+                        badp.append('%s (destructor of local `%s`)' % (f.nloc(blk.get('term')) if blk.get('term') else 'scope exit', e.get('name')))
         for w in putbacks:
             if any(f.pos_reaches(t['pos'], w['pos']) for t in takes):
                 held = si.held_must(w['pos'], 'guard')
                 if not any(last_field(p) == 'queueEmptyCounter' for p in held):
                     badp.append(f.nloc(w['node']))
-        ctx.ob('C11.O2', f, 'the guard is still held when declined events are put back', not badp,
+        ctx.ob(rule, f, 'the guard is still held when declined events are put back', not badp,
                detail='put-back at %s happens after the guard ended' % ', '.join(badp))
 
-    # O3 sole writer
-    for f in info.members(q):
-        for w in info.writes(f):
-            if last_field(w['path']) == 'queueEmptyCounter' and w['path'][-1] == '.queueEmptyCounter':
-                how = w['how']
-                if how.startswith('call:') and how[5:] in ('load',):
-                    continue
-                ctx.ob('C11.O3', f, 'queueEmptyCounter is changed only through CounterGuard', how == 'guard',
-                       detail='%s at %s' % (how, f.nloc(w['node'])), key_detail='writer ' + how)
 
 
 def check_guard(ctx, tu):
